@@ -1,7 +1,7 @@
 """C10 — randomness is used only to break genuine ties, and every tiebreak is recorded."""
 from fractions import Fraction
 from .. import gen, elect
-from ..common import Names, rat
+from ..common import Names, rat, run_impl
 from . import c01
 from .c04 import ref_scores
 
@@ -50,6 +50,11 @@ def cases(rng, tier, shard, nshards, phase):
             yield float_collapse_case(rng)
             continue
         if rng.random() < 0.05:
+            c = later_top_tie_case(rng)
+            if c is not None:
+                yield c
+                continue
+        if rng.random() < 0.05:
             c = c01.double_residual_tie_case(rng) if rng.random() < 0.6 else c01.partial_tiebreak_case(rng)
             if c is not None:
                 yield c
@@ -92,6 +97,43 @@ def float_collapse_case(rng):
             "spec": {"names": names, "b": bs, "c": list(range(n))}, "rs": rng.randint(0, 10 ** 9), "huge": True}
 
 
+def later_top_tie_case(rng):
+    """one-by-one STV with a scored tiebreak whose top tie arises only AFTER a surplus transfer (round >= 2): A is elected
+    with surplus s on ballots A>C>.., which lifts C to the tally of B; both are at or above the quota. The tie must be
+    broken on the profile of that round (A gone, A's ballots at reduced weight), not on the initial one."""
+    for _ in range(200):
+        t, s0, d = rng.randint(3, 14), rng.randint(1, 3), rng.randint(0, 6)
+        if t - s0 < 1:
+            continue
+        qs = [q for q in range(1, t + 1) if q == (q + 2 * t + d) // 4 + 1]
+        if not qs:
+            continue
+        q = qs[0]
+        n = rng.randint(4, 5)
+        names = gen.gen_names(rng, n)
+        cs = list(range(n)); rng.shuffle(cs)
+        a, b, c, rest = cs[0], cs[1], cs[2], cs[3:]
+
+        def tail(first):
+            others = [x for x in cs if x not in first]
+            rng.shuffle(others)
+            return [[x] for x in first + others]
+        bs = [{"r": tail([a, c]), "w": str(q + s0), "s": []}, {"r": tail([b]), "w": str(t), "s": []},
+              {"r": tail([c]), "w": str(t - s0), "s": []}]
+        if d:
+            bs.append({"r": tail([rest[0]]), "w": str(d), "s": []})
+        rng.shuffle(bs)
+        rule = rng.choice(["STV", "STV", "SequentialRCV", "Alaska"])
+        cfg = {"quota": "droop", "simultaneous": False, "tiebreak": rng.choice(["borda", "first_place"])}
+        if rule == "Alaska":
+            cfg.update(m1=n, m2=3)
+        else:
+            cfg["m"] = 3
+        return {"rule": rule, "cfg": cfg, "spec": {"names": names, "b": bs, "c": list(range(n))},
+                "rs": rng.randint(0, 10 ** 9), "later_tie": True}
+    return None
+
+
 def outcome(res, names):
     if res["status"] == "ok":
         return ("ok", names.states(res["e"]))
@@ -108,6 +150,8 @@ def run_case(vk, case):
     tags = [f"rule:{rule}", f"tiebreak:{cfg.get('tiebreak')}", f"status:{res['status']}"]
     if case.get("huge"):
         tags.append("weights:float-collapsing")
+    if case.get("later_tie"):
+        tags.append("engineered:top-tie-after-transfer")
     monitors = []
 
     def fail(name, detail, cause="unexplained"):
@@ -155,6 +199,29 @@ def run_case(vk, case):
                     if any(init[flat[j]] < init[flat[j + 1]] for j in range(len(flat) - 1)):
                         fail("elimination-tiebreak-ignores-initial-tally", f"round {i}: {flat} initial {[str(init[c]) for c in flat]}")
                 tb = cfg.get("tiebreak")
+                if rule in ("STV", "SequentialRCV") and tb in ("borda", "first_place") and el_in and i >= 1 \
+                        and not cfg.get("simultaneous", True):
+                    # one-by-one election: the tie at the top is broken on the profile the count holds in THAT round
+                    held = run_impl(lambda: r["e"].get_profile(i - 1))
+                    if held[0] == "ok":
+                        hp = names.profile(held[1])
+                        hspec = {"b": [b0 for b0 in hp["b"] if b0["r"]], "c": hp["c"]}
+                        vec = list(range(len(hspec["c"]), 0, -1)) if tb == "borda" else [1]
+                        sc = ref_scores(hspec, vec)
+                        if all(c in sc for c in flat):
+                            if any(sc[flat[j]] < sc[flat[j + 1]] for j in range(len(flat) - 1)):
+                                fail("scored-tiebreak-not-on-round-profile",
+                                     f"round {i} {tb}: {flat} scores on the round's profile {[str(sc[c]) for c in flat]}")
+                            # candidates still tied on that score need a random draw over exactly that group
+                            drawn = [sorted(names.idx[str(x)] for x in c0[1]) for c0 in r["log"].calls
+                                     if c0[0] == "sample" and c0[1] and isinstance(c0[1][0], str)]
+                            groups = {}
+                            for c in flat:
+                                groups.setdefault(sc[c], []).append(c)
+                            for g in groups.values():
+                                if len(g) > 1 and sorted(g) not in drawn:
+                                    fail("tied-on-tiebreak-score-without-random-draw",
+                                         f"round {i} {tb}: {sorted(g)} tie on the round's profile but no random draw over them")
                 if rule in ("Plurality", "SNTV", "Borda") and tb in ("borda", "first_place") and i == 1:
                     vec = list(range(n, 0, -1)) if tb == "borda" else [1]
                     sc = ref_scores(spec, vec)
